@@ -248,6 +248,14 @@ def run_check(pid, tier, seed, replay=None):
     rundir = os.path.join(ROOT, ".run", f"{pid}-{os.getpid()}")
     shutil.rmtree(rundir, ignore_errors=True)
     os.makedirs(rundir)
+    if replay:
+        # the file to replay may itself live in this property's replay directory: keep a copy before that is cleared
+        if not os.path.isfile(replay):
+            print(f"replay file {replay} does not exist")
+            return 2
+        kept = os.path.join(rundir, "replay_input.json")
+        shutil.copy(replay, kept)
+        replay = kept
     # a previous run's replay files for this property are stale
     shutil.rmtree(os.path.join(ROOT, "replay", pid), ignore_errors=True)
     broken = []        # ties that no longer check: {kind, what, detail}
